@@ -14,8 +14,9 @@ Definition trim_right (cut : list N) (l : list N) : list N := rev (dropwhile (fu
 Fixpoint split_dd (l : list N) (rcur : list N) : list (list N) :=
   match l with
   | [] => [rev rcur]
-  | 46 :: 46 :: t => rev rcur :: split_dd t []
-  | c :: t => split_dd t (c :: rcur)
+  | c :: t => if (c =? 46) && (match t with d :: _ => d =? 46 | [] => false end)
+              then rev rcur :: match t with _ :: t' => split_dd t' [] | [] => [] end
+              else split_dd t (c :: rcur)
   end.
 (* strings.Split(s, ",") *)
 Fixpoint split_comma (l : list N) (rcur : list N) : list (list N) :=
@@ -35,9 +36,10 @@ Fixpoint contains (p l : list N) : bool :=                                      
 (* strconv.Atoi on at most 18 digits: optional sign, then one or more digits *)
 Definition atoi (l : list N) : option Z :=
   match l with
-  | 43 :: t => option_map Z.of_N (parse_N t)
-  | 45 :: t => option_map (fun n => (- Z.of_N n)%Z) (parse_N t)
-  | _ => option_map Z.of_N (parse_N l)
+  | c :: t => if c =? 43 then option_map Z.of_N (parse_N t)
+              else if c =? 45 then option_map (fun n => (- Z.of_N n)%Z) (parse_N t)
+              else option_map Z.of_N (parse_N l)
+  | [] => None
   end.
 
 (* a..b ascending (empty when a > b), as the Go loops build it *)
@@ -117,35 +119,35 @@ Definition first4 (f : list N) : option (list N) := if Nat.ltb (length f) 4 then
 (* posFromJoin / posFromComp called with the error dropped: `pos, _ := ...` keeps the empty slice *)
 Definition drop_err (r : res (list Z)) : res (list Z) := match r with Err _ => Ok [] | x => x end.
 
+(* one field of unNestRecur: the positions it contributes; `rec` is the recursive call on the text between the parentheses *)
+Definition field_general (rec : list N -> res (list (list Z))) (f : list N) : res (list Z) :=
+  let sc := fold_left scan_step f scan0 in
+  if Nat.ltb (sc_ci sc) (sc_oi sc) then Panic
+  else
+    let outer := firstn (sc_oi sc) f ++ skipn (sc_ci sc) f in
+    let inner := firstn (sc_ci sc - sc_oi sc) (skipn (sc_oi sc) f) in
+    bind (rec inner) (fun ir =>
+      if list_eqb outer (bs "join()") then Ok (concat ir)
+      else if list_eqb outer (bs "complement()")
+           then match ir with [x] => Ok (rev x) | _ => Err BadFormat end
+           else Ok []).
+Definition field_one (rec : list N -> res (list (list Z))) (f : list N) : res (list Z) :=
+  if is_nested f then field_general rec f
+  else match first4 f with
+       | None => Panic
+       | Some h => if list_eqb h (bs "join") then drop_err (pos_from_join f)
+                   else if list_eqb h (bs "comp") then drop_err (pos_from_comp f)
+                   else field_general rec f
+       end.
+Fixpoint un_nest_fields (rec : list N -> res (list (list Z))) (fs : list (list N)) : res (list (list Z)) :=
+  match fs with
+  | [] => Ok []
+  | f :: rest => bind (field_one rec f) (fun p => bind (un_nest_fields rec rest) (fun r => Ok (p :: r)))
+  end.
 Fixpoint un_nest (fuel : nat) (s : list N) : res (list (list Z)) :=
   match fuel with
   | O => Err Other
-  | S fuel' =>
-      let fix fields (fs : list (list N)) : res (list (list Z)) :=
-        match fs with
-        | [] => Ok []
-        | f :: rest =>
-            let general :=
-              let sc := fold_left scan_step f scan0 in
-              if Nat.ltb (sc_ci sc) (sc_oi sc) then Panic
-              else
-                let outer := firstn (sc_oi sc) f ++ skipn (sc_ci sc) f in
-                let inner := firstn (sc_ci sc - sc_oi sc) (skipn (sc_oi sc) f) in
-                bind (un_nest fuel' inner) (fun ir =>
-                  let pos := if list_eqb outer (bs "join()") then Ok (concat ir)
-                             else if list_eqb outer (bs "complement()")
-                                  then match ir with [x] => Ok (rev x) | _ => Err BadFormat end
-                                  else Ok [] in
-                  bind pos (fun p => bind (fields rest) (fun r => Ok (p :: r)))) in
-            if is_nested f then general
-            else match first4 f with
-                 | None => Panic
-                 | Some h => if list_eqb h (bs "join") then bind (drop_err (pos_from_join f)) (fun p => bind (fields rest) (fun r => Ok (p :: r)))
-                             else if list_eqb h (bs "comp") then bind (drop_err (pos_from_comp f)) (fun p => bind (fields rest) (fun r => Ok (p :: r)))
-                             else general
-                 end
-        end in
-      fields (split_outer 0 s [])
+  | S fuel' => un_nest_fields (un_nest fuel') (split_outer 0 s [])
   end.
 
 Definition get_positions (s : list N) : res (list Z) :=
